@@ -15,10 +15,12 @@ LEAN_TARGETS = ["Eliot.Properties.C15"]
 AUDIT = "Eliot/Audit/C15.lean"
 THEOREMS = [
     "Gen.C15.gen_ctx_private", "Gen.C15.driver_ctx_untouched", "Gen.C15.nested_wrapped",
+    "Gen.C15.wrapper_transparent",
+    # about the OLD shape of the wrapper (`except StopIteration: break`), kept as the record of the repaired defect:
     "Gen.C15.wrapper_transparent_partial", "Gen.C15.wrapper_drops_return_value",
     "Gen.C15.wrapFixed_transparent",
 ]
-GENERATED_OBLIGATIONS = ["Gen.C15.wrapperSkeleton = assumed (Generated.GenWrapper)"]
+GENERATED_OBLIGATIONS = ["Generated.genWrapper = Gen.C15.assumedWrapper (E15: shape of the wrapper loop; Gen.keepsReturn follows its `stop` field)"]
 RULE = ("bodies: random well-bracketed instruction lists (enter/exit of own actions spanning yields, log=observe current_action, "
         "yield v / yield last-received, try/catch(Thrown | bare), raise, return v, resume of a higher-numbered generator with send/throw/close); "
         "1-4 generators, the script interleaves resumptions (send None/value, throw, close) with the driver entering/leaving up to 3 "
